@@ -102,6 +102,11 @@ func (g *G) mkHdr(name, val string, o *MsgOpts) HdrSpec {
 		h.Trail = g.WS(3)
 	}
 	h.Term = g.Term()
+	if !g.Strict && h.Kind != "" && g.R.Chance(1, 50) {
+		// a typed header (Expires, CSeq, From ...) whose value is empty or blank
+		h.Val, h.Trail = "", ""
+		h.Lead = g.R.Pick([]string{"", " ", "  ", "\t", " \t "})
+	}
 	return h
 }
 
